@@ -59,3 +59,30 @@ Definition layout (ws : list str) (pieces : list str) : Prop :=
     pieces = List.map render groups /\
     Forall (fun g => g <> [] /\ Forall (fun t => fst t <> []) g /\ cont_only_last g) groups /\
     spell (concat groups) [] = Some ws.
+
+(* ---- what "the words of a text" are ---------------------------------- *)
+
+(* The separators of the statement: TAB, LF, VT, FF, CR, SPACE, NEL (C2 85), NBSP (C2 A0). *)
+Definition sep1 (b : N) : bool :=
+  (b =? 9) || (b =? 10) || (b =? 11) || (b =? 12) || (b =? 13) || (b =? 32).
+Inductive sep_unit : str -> Prop :=
+| su_byte : forall b, sep1 b = true -> sep_unit [b]
+| su_nel : sep_unit [194; 133]
+| su_nbsp : sep_unit [194; 160].
+
+Section Tokenised.
+  Variable U : str -> Prop.      (* the separator units *)
+
+  Definition free_of (w : str) : Prop := forall a u b, U u -> w <> a ++ u ++ b.
+  Definition at_unit (s : str) : Prop := s = [] \/ exists u s', U u /\ s = u ++ s'.
+
+  (* s is separators and words: every word is non-empty, contains no separator and is
+     followed by a separator or the end (so words are maximal and none is missed) *)
+  Inductive tokenisedU : str -> list str -> Prop :=
+  | tk_nil : tokenisedU [] []
+  | tk_sep : forall u s ws, U u -> tokenisedU s ws -> tokenisedU (u ++ s) ws
+  | tk_word : forall w s ws, w <> [] -> free_of w -> at_unit s -> tokenisedU s ws ->
+              tokenisedU (w ++ s) (w :: ws).
+End Tokenised.
+
+Definition tokenised : str -> list str -> Prop := tokenisedU sep_unit.
